@@ -97,6 +97,8 @@ type lkCase struct {
 	stopAt   int    // number of replies after which the stop action happens; -1 = never
 	stopAct  string // ctx close stoptrav
 	consStop int    // consumer stops reading after this many deliveries; -1 = reads to the end
+	slow     bool   // the consumer takes its time between two receives; the network does not wait for it
+	gated    bool   // the consumer starts reading only after the stop action: the responses served before it are pending deliveries then
 	reps     int
 	desc     string
 	sub      uint64
@@ -311,6 +313,22 @@ func (st *lkState) resendDelay() time.Duration {
 	return d
 }
 
+// lkStableGoroutines returns the goroutine count once it has not changed for a while (used only to take a
+// baseline at a point where everything the code does is waiting for the harness).
+func lkStableGoroutines() int {
+	last, same := runtime.NumGoroutine(), 0
+	for i := 0; i < 4000 && same < 20; i++ {
+		time.Sleep(50 * time.Microsecond)
+		n := runtime.NumGoroutine()
+		if n == last {
+			same++
+		} else {
+			last, same = n, 0
+		}
+	}
+	return last
+}
+
 func addrTok(a *net.UDPAddr) string { return fmt.Sprintf("%s:%d", hx(a.IP.To4()), a.Port) }
 
 // ---------------------------------------------------------------- one case
@@ -450,6 +468,7 @@ func runLookupOnce(c *lkCase, rep int, report bool) (*lkState, lkResult) {
 	var a *dht.Announce
 	annReady := make(chan struct{})
 	consumerStopped := make(chan struct{})
+	consumerGo := make(chan struct{})
 	switch c.api {
 	case "bootstrap":
 		go func() {
@@ -486,6 +505,9 @@ func runLookupOnce(c *lkCase, rep int, report bool) (*lkState, lkResult) {
 			// the consumer
 			go func() {
 				defer close(st.consDone)
+				if c.gated {
+					<-consumerGo
+				}
 				n := 0
 				stopped := false
 				for pv := range a.Peers {
@@ -494,6 +516,9 @@ func runLookupOnce(c *lkCase, rep int, report bool) (*lkState, lkResult) {
 					st.mu.Unlock()
 					atomic.AddInt64(&st.nDeliv, 1)
 					n++
+					if c.slow {
+						time.Sleep(2 * time.Millisecond)
+					}
 					if c.consStop >= 0 && n >= c.consStop && !stopped {
 						stopped = true
 						close(consumerStopped)
@@ -630,6 +655,9 @@ func runLookupOnce(c *lkCase, rep int, report bool) (*lkState, lkResult) {
 					a.StopTraversing()
 				}
 			}
+			if c.gated {
+				close(consumerGo) // from now on the consumer reads, slowly
+			}
 			// queries the run loop was in the middle of starting left before the stop took effect
 			time.Sleep(2 * time.Millisecond)
 			drain()
@@ -682,6 +710,10 @@ func runLookupOnce(c *lkCase, rep int, report bool) (*lkState, lkResult) {
 			}
 			say("lkreply %d %d %s %s %s %s %s %s %s => ok", q.n, b2i(hasR), id, tok, payload, v, k, sig, seq)
 			before := atomic.LoadInt64(&st.nDeliv)
+			gBefore := 0
+			if c.gated && !stopped {
+				gBefore = lkStableGoroutines()
+			}
 			if !st.conn.inject(b, q.dest, 3*time.Second) {
 				oracle("C01", "serve-loop-stuck", "reply not taken case=%d %s", c.idx, c.name())
 			}
@@ -690,13 +722,30 @@ func runLookupOnce(c *lkCase, rep int, report bool) (*lkState, lkResult) {
 				st.served[q.dest.String()]++
 			}
 			// the effect: for an announce whose consumer reads, the response shows up on Peers
-			if c.api == "announce" && hasR && (c.consStop < 0 || int(before) < c.consStop) {
+			if c.api == "announce" && hasR && !c.slow && (c.consStop < 0 || int(before) < c.consStop) {
 				dl := time.Now().Add(2 * time.Second)
 				for atomic.LoadInt64(&st.nDeliv) == before && time.Now().Before(dl) {
 					time.Sleep(20 * time.Microsecond)
 				}
 				if atomic.LoadInt64(&st.nDeliv) == before {
 					oracle("C16", "response-not-delivered", "get_peers response of %v not on Peers within 2s case=%d %s sub=%d", q.dest, c.idx, c.name(), c.sub)
+				}
+			}
+			if c.gated && !stopped && hasR {
+				// nobody receives from Peers yet: the response is received when its Query has returned and getPeers is
+				// blocked in the send -- the query's sender goroutine is gone then and nothing else has changed
+				dl := time.Now().Add(2 * time.Second)
+				ok := 0
+				for ok < 3 && time.Now().Before(dl) {
+					if runtime.NumGoroutine() == gBefore-1 {
+						ok++
+					} else {
+						ok = 0
+					}
+					time.Sleep(50 * time.Microsecond)
+				}
+				if ok < 3 {
+					oracle("C14", "harness-pending-delivery-not-reached", "goroutines %d, expected %d: case=%d %s", runtime.NumGoroutine(), gBefore-1, c.idx, c.name())
 				}
 			}
 			for i := 0; i < 20; i++ {
@@ -883,7 +932,11 @@ func (st *lkState) oracles(res *lkResult) {
 			}
 		}
 		// delivery: consumer kept reading -> every response exactly once, with address and id
-		if c.consStop < 0 && c.stopAt < 0 {
+		if c.consStop < 0 && (c.stopAt < 0 || c.gated) && !res.stuck {
+			ndKey := "response-not-delivered"
+			if c.gated {
+				ndKey = "response-not-delivered:stoptraversing-slow-consumer"
+			}
 			cnt := map[string]int{}
 			st.mu.Lock()
 			for _, p := range st.peers {
@@ -899,7 +952,7 @@ func (st *lkState) oracles(res *lkResult) {
 				}
 				k := addrTok(n.addr) + "|" + hx(id[:])
 				if cnt[k] < want {
-					oracle("C16", "response-not-delivered", "%d response(s) of %s, %d on Peers: %s", want, k, cnt[k], tag)
+					oracle("C16", ndKey, "%d response(s) of %s, %d on Peers: %s", want, k, cnt[k], tag)
 				}
 				if cnt[k] > want {
 					oracle("C16", "response-delivered-twice", "%d response(s) of %s, %d on Peers: %s", want, k, cnt[k], tag)
@@ -1099,6 +1152,10 @@ func lookupCases(seed uint64, tier string) []lkCase {
 				nodes: nodes, start: []int{0, n - 1}, stopAt: -1, consStop: -1, desc: fmt.Sprintf("net%d-%s", ni, o.name)}
 			add(c)
 			if oi == 0 {
+				cs2 := c
+				cs2.slow, cs2.sub = true, 0
+				cs2.desc = fmt.Sprintf("net%d-%s-slow-consumer", ni, o.name)
+				add(cs2)
 				for _, at := range []int{0, 1, 2, n / 2} {
 					for _, act := range []string{"close", "stoptrav"} {
 						c2 := c
@@ -1119,6 +1176,21 @@ func lookupCases(seed uint64, tier string) []lkCase {
 		nodes := genNet(r, n, target)
 		c := lkCase{api: "announce", sn: "ok", target: target, annOpts: true, annPort: 6881, nodes: nodes, start: []int{0, 1, 2}, stopAt: 2, stopAct: "close",
 			consStop: 1, desc: fmt.Sprintf("close-with-nonreading-consumer-%d", ni), d10: true}
+		add(c)
+	}
+
+	// ---- announce: StopTraversing with deliveries pending, then a slow but reading consumer: every response that was
+	// received must still be delivered exactly once, the channel closed, Finished fires ----
+	for ni := 0; ni < 3; ni++ {
+		r := root.sub(2700 + ni)
+		target := mkTarget(r)
+		nodes := genNet(r, 3, target)
+		for _, nd := range nodes {
+			nd.lists = nil // nothing more to ask: all three starting nodes are in flight at once (alpha = 3)
+		}
+		c := lkCase{api: "announce", sn: "ok", target: target, annOpts: ni != 1, annPort: 6881, nodes: nodes, start: []int{0, 1, 2},
+			stopAt: 1 + ni%2, stopAct: "stoptrav", consStop: -1, slow: true, gated: true,
+			desc: fmt.Sprintf("stoptraversing-pending-deliveries-slow-consumer-%d", ni)}
 		add(c)
 	}
 
@@ -1296,8 +1368,10 @@ func lookupCases(seed uint64, tier string) []lkCase {
 // ---------------------------------------------------------------- engine entry, containment
 
 func lookupsEngine(seed uint64, tier string, args []string) {
+	// args: [-only <case>] replays one case (same seed => same case); -child / -from are used by the containment
 	from := 0
 	child := false
+	only := -1
 	for i := 0; i < len(args); i++ {
 		switch args[i] {
 		case "-child":
@@ -1305,11 +1379,20 @@ func lookupsEngine(seed uint64, tier string, args []string) {
 		case "-from":
 			from, _ = strconv.Atoi(args[i+1])
 			i++
+		case "-only":
+			only, _ = strconv.Atoi(args[i+1])
+			i++
 		}
 	}
 	cases := lookupCases(seed, tier)
+	if only >= 0 && only < len(cases) {
+		cases = cases[:only+1]
+		if from < only {
+			from = only
+		}
+	}
 	if !child {
-		lkContained(seed, tier, cases)
+		lkContained(seed, tier, cases, from, only)
 		return
 	}
 	time.Sleep(2 * time.Millisecond)
@@ -1323,8 +1406,7 @@ func lookupsEngine(seed uint64, tier string, args []string) {
 
 // lkContained is runContained (main.go) for this engine's line names: cases run in a child process; when the child
 // dies the case it died in is reported and the run goes on with the next one.
-func lkContained(seed uint64, tier string, cases []lkCase) {
-	from := 0
+func lkContained(seed uint64, tier string, cases []lkCase, from, only int) {
 	tmp, err := os.CreateTemp("", "verif-lk-*.txt")
 	if err != nil {
 		panic(err)
@@ -1332,7 +1414,11 @@ func lkContained(seed uint64, tier string, cases []lkCase) {
 	tmp.Close()
 	defer os.Remove(tmp.Name())
 	for from < len(cases) {
-		cmd := exec.Command(os.Args[0], "-seed", strconv.FormatUint(seed, 10), "-tier", tier, "-out", tmp.Name(), "lookups", "-child", "-from", strconv.Itoa(from))
+		cargs := []string{"-seed", strconv.FormatUint(seed, 10), "-tier", tier, "-out", tmp.Name(), "lookups", "-child", "-from", strconv.Itoa(from)}
+		if only >= 0 {
+			cargs = append(cargs, "-only", strconv.Itoa(only))
+		}
+		cmd := exec.Command(os.Args[0], cargs...)
 		var stderr bytes.Buffer
 		cmd.Stderr = &stderr
 		cmd.Stdout = &stderr
@@ -1383,8 +1469,17 @@ func lkContained(seed uint64, tier string, cases []lkCase) {
 		}
 		site := "unknown"
 		st := stderr.String()
-		if m := regexp.MustCompile(`github\.com/anacrolix/dht/v2[^\s(]*\.([A-Za-z0-9_*().]+)\(`).FindStringSubmatch(st); m != nil {
-			site = strings.NewReplacer("(", "", ")", "", "*", "").Replace(m[1])
+		if m := regexp.MustCompile(`(?m)^github\.com/anacrolix/dht/v2/?(\S+)`).FindStringSubmatch(st); m != nil {
+			f := regexp.MustCompile(`\(\*([A-Za-z0-9_]+)\)`).ReplaceAllString(m[1], "$1")
+			if i := strings.Index(f, "("); i >= 0 {
+				f = f[:i]
+			}
+			if i := strings.LastIndex(f, "/"); i >= 0 {
+				f = f[i+1:]
+			}
+			if f != "" {
+				site = f
+			}
 		}
 		first := ""
 		for _, l := range strings.Split(st, "\n") {
@@ -1406,7 +1501,7 @@ func lkContained(seed uint64, tier string, cases []lkCase) {
 		}
 		emit("oracle C01 process-died:%s case=%d scenario=%s %q last-line=%q", site, crashed, name, first, last)
 		if crashed < len(cases) && (cases[crashed].api == "get" || cases[crashed].api == "put") {
-			emit("oracle C12 client-panic-on-reply case=%d scenario=%s site=%s %q replay: h -seed %d lookups (case %d)", crashed, name, site, first, seed, crashed)
+			emit("oracle C12 client-panic-on-reply case=%d scenario=%s site=%s %q replay: h -seed %d lookups -only %d", crashed, name, site, first, seed, crashed)
 		}
 		from = crashed + 1
 	}
